@@ -116,7 +116,7 @@ async fn check_values(
         };
         out.adds += 1;
         let kind_shape = if how.starts_with("budget:") {
-            format!("{}|budget:vector-in-untyped-slot", skeleton(ft))
+            format!("{}|budget:{}", skeleton(ft), if how.contains("vector") { "vector-in-untyped-slot" } else { "depth" })
         } else {
             skeleton(ft)
         };
@@ -293,6 +293,24 @@ fn main() {
         }
     }
 
+    // nesting towers through the storage stack
+    for it in items.iter_mut() {
+        for k in [64usize, 65, 70, 130] {
+            let jo = Fv::Json(values::nest_json_obj(k));
+            if it.ft == Ft::Json || it.ft == grammar::opt(Ft::Json) {
+                it.extra.push((format!("budget:json_obj_nest{k}"), jo.clone()));
+                it.extra.push((format!("budget:json_mixed_nest{k}"), Fv::Json(values::nest_json_mixed(k, true))));
+            }
+            if it.ft == grammar::arr1(Ft::Json) {
+                it.extra.push((format!("budget:arr1_json_obj_nest{k}"), Fv::Array(vec![jo.clone()])));
+            }
+            if it.ft == Ft::Array(vec![]) {
+                it.extra.push((format!("budget:untyped_holds_fv_mixed_nest{k}"), Fv::Array(vec![values::nest_fv_mixed(k)])));
+                it.extra.push((format!("budget:untyped_holds_json_obj_nest{k}"), Fv::Array(vec![jo.clone()])));
+            }
+        }
+    }
+
     let mut levels = vec![0, 3];
     if let Some(file) = run.replay_file.clone() {
         let v: serde_json::Value = serde_json::from_slice(&std::fs::read(&file).expect("read replay")).expect("json");
@@ -359,7 +377,7 @@ fn main() {
         }
     }
     run.rule(&format!(
-        "every FieldType of grammar depth <= 2 ({} leaves + {} composites) + the {} narrow depth-3 shapes of part roundtrip{} x every generated valid value x zstd compress_level {{0, 3}} (cache off): one collection per shape with schema {{v: T, pad: Text(800 compressible chars)}}, Document::set_field -> Collection::add -> Collection::get, then AndaDB::close, reconnect, open_collection from the persisted schema and get again; compared in the declared variant (bit-exact); distinct = (level, type, value)",
+        "every FieldType of grammar depth <= 2 ({} leaves + {} composites) + the {} narrow depth-3 shapes of part roundtrip{} x every generated valid value (+ budget probes: Vector in an untyped slot, nesting towers of JSON objects / mixed containers of height 64, 65, 70, 130) x zstd compress_level {{0, 3}} (cache off): one collection per shape with schema {{v: T, pad: Text(800 compressible chars)}}, Document::set_field -> Collection::add -> Collection::get, then AndaDB::close, reconnect, open_collection from the persisted schema and get again; compared in the declared variant (bit-exact); distinct = (level, type, value)",
         lv.l1.len(),
         lv.l2.len(),
         lv.l3.len(),
